@@ -8,7 +8,7 @@ import z3
 from . import theories as TH
 from .api import CLASSES, CONTRACTS
 from .frontend import mangle, strip_docstring
-from .sym import (EXC_NAMES, Engine, Exec, Exit, Obligation, State, TH_real, Unsupported, _as_expression, as_int,
+from .sym import (NeedsFork, EXC_NAMES, Engine, Exec, Exit, Obligation, State, TH_real, Unsupported, _as_expression, as_int,
                   as_real, root_of)
 from .values import (TAny, TBool, TFunc, TInt, TMap, TNone, TObj, TOpt, TReal, TSeq, TStr, TTuple, VBool,
                      VBoundMethod, VBuiltin, VClass, VEnum, VFunc, VInt, VMap, VModule, VNone, VOpaque, VOpt, VRange,
@@ -133,6 +133,7 @@ class Executor(Exec):
                     return VNone()
         fv = self.eval(f, st)
         args, kwargs = self.eval_args(node, st)
+        self.call_node = node
         if isinstance(fv, VBoundMethod):
             recv = fv.recv
             if isinstance(recv, (VRef, VStruct)):
@@ -383,7 +384,60 @@ class Executor(Exec):
                 self.inlined.add(fi.qualname)
                 env = self.bind_params(st, fi, None, recv, args, kwargs)
                 return self.eval_in(st, expr, env, fi.module, fi.cls)
+            if fi.kind == "method" and not (name.startswith("__") and name.endswith("__")) and after is None \
+                    and self.repo.find_method(cls, fi.name) is fi:
+                return self.inline_call(st, fi, recv, args, kwargs)
         raise Unsupported(f"call to {cls}.{name} without contract")
+
+    def inline_call(self, st, fi, recv, args, kwargs):
+        """a helper WITHOUT contract (typically one extracted from a function under contract): its body is executed in
+        place, path by path, as part of the caller.  Loops inside it have no invariant -> outside the subset."""
+        node = getattr(self, "call_node", None)
+        if self.spec or self.binder_marks:
+            raise Unsupported(f"call to {fi.qualname} without contract inside a specification or comprehension")
+        stack = getattr(self, "inline_stack", [])
+        if fi.qualname in stack or len(stack) >= 3:
+            raise Unsupported(f"call to {fi.qualname} without contract (recursive or nested too deep to inline)")
+        for d in fi.node.decorator_list:
+            if ast.unparse(d) not in ("staticmethod", "classmethod"):
+                raise Unsupported(f"call to {fi.qualname} without contract (decorated with @{ast.unparse(d)})")
+        if fi.node.args.vararg or fi.node.args.kwarg:
+            raise Unsupported(f"call to {fi.qualname} without contract (*args / **kwargs)")
+        env = self.bind_params(st, fi, None, recv, args, kwargs)
+        self.inlined.add(fi.qualname + " (helper without contract, body executed in place)")
+        saved = (st.env, st.aliasof, self.module, self.defcls)
+        st.env, st.aliasof = dict(env), {}
+        self.module, self.defcls = fi.module, fi.cls
+        self.inline_stack = stack + [fi.qualname]
+        saved_exits, self.exits = self.exits, []
+        saved_line = self.cur_line
+        try:
+            outs = self.exec_block(strip_docstring(fi.node.body), st)
+            inner = self.exits
+        finally:
+            self.exits = saved_exits
+            self.inline_stack = stack
+            self.module, self.defcls = saved[2], saved[3]
+            self.cur_line = saved_line
+            st.env, st.aliasof = saved[0], saved[1]
+        conts = []
+        for cur, status in outs:
+            if status != "normal":
+                raise Unsupported(f"break/continue escaping {fi.qualname}")
+            cur.env, cur.aliasof = dict(saved[0]), dict(saved[1])
+            conts.append((cur, VNone()))
+        for ex in inner:
+            ex.st.env, ex.st.aliasof = dict(saved[0]), dict(saved[1])
+            if ex.kind == "return":
+                conts.append((ex.st, ex.value))
+            else:
+                self.exits.append(ex)            # an exception of the helper leaves the caller too
+        if len(conts) == 1:
+            cur, val = conts[0]
+            if cur is not st:
+                st.__dict__.update(cur.__dict__)
+            return val
+        raise NeedsFork(node, conts)
 
     def bind_params(self, st, fi, c, recv, args, kwargs):
         """environment for the callee: python binding rules on the real signature"""
@@ -502,6 +556,7 @@ class Executor(Exec):
             if loc_h is not None and loc_h[0] == "vfield":
                 key = ("field", loc_h[1], loc_h[2])
                 if path in c.rebinds:
+                    self.detach_aliases(st, loc_h, stale=True)
                     st.rebindcnt[key] = st.rebindcnt.get(key, 0) + 1   # a new list object; old references stay valid
                 else:
                     st.inplace[key] = st.inplace.get(key, 0) + 1       # the callee may have mutated the list in place
@@ -815,7 +870,12 @@ class Executor(Exec):
     def s_Expr(self, s, st):
         if isinstance(s.value, ast.Constant):
             return [(st, "normal")]
-        self.eval(s.value, st)
+        try:
+            self.eval(s.value, st)
+        except NeedsFork as nf:
+            if nf.node is not s.value:
+                raise Unsupported(str(nf))
+            return [(cur, "normal") for cur, _ in nf.conts]
         return [(st, "normal")]
 
     def s_Assert(self, s, st):
@@ -829,8 +889,16 @@ class Executor(Exec):
             node = ast.If(test=s.value.test, body=[ast.copy_location(ast.Return(value=s.value.body), s)],
                           orelse=[ast.copy_location(ast.Return(value=s.value.orelse), s)])
             return self.exec_stmt(ast.copy_location(node, s), st)
-        v = self.eval(s.value, st) if s.value is not None else VNone()
-        if not self.dry:
+        try:
+            v = self.eval(s.value, st) if s.value is not None else VNone()
+        except NeedsFork as nf:
+            if nf.node is not s.value:
+                raise Unsupported(str(nf))
+            for cur, val in nf.conts:
+                if not self.dry or getattr(self, "inline_stack", None):
+                    self.exits.append(Exit("return", cur, value=val, line=s.lineno))
+            return []
+        if not self.dry or getattr(self, "inline_stack", None):
             self.exits.append(Exit("return", st, value=v, line=s.lineno))
         return []
 
@@ -900,14 +968,34 @@ class Executor(Exec):
                           body=[ast.copy_location(ast.Assign(targets=s.targets, value=s.value.body), s)],
                           orelse=[ast.copy_location(ast.Assign(targets=s.targets, value=s.value.orelse), s)])
             return self.exec_stmt(ast.copy_location(node, s), st)
-        v = self.eval(s.value, st)
-        states = [(st, "normal")]
-        for t in s.targets:
-            nxt = []
-            for cur, _ in states:
-                nxt += self.assign(cur, t, v)
-            states = nxt
-        return states
+        if len(s.targets) == 1 and isinstance(s.targets[0], ast.Name) and isinstance(s.value, (ast.Attribute, ast.Name)) \
+                and not self.spec:
+            # `x = obj.field` where the field holds a list / array / dict: x denotes the same OBJECT (no copy)
+            loc = self.try_loc(s.value, st)
+            if loc is not None and loc[0] == "vfield":
+                cur = self.read(st, loc)
+                from .values import VFilePtr
+                if (isinstance(cur, VSeq) and cur.kind != "bytes") or isinstance(cur, (VMap, VFilePtr)):
+                    self.eval(s.value, st)
+                    self.write(st, ("var", s.targets[0].id), cur)
+                    st.aliasof[s.targets[0].id] = loc
+                    return [(st, "normal")]
+        try:
+            pairs = [(st, self.eval(s.value, st))]
+        except NeedsFork as nf:
+            if nf.node is not s.value:
+                raise Unsupported(str(nf))
+            pairs = nf.conts
+        out = []
+        for st1, v in pairs:
+            states = [(st1, "normal")]
+            for t in s.targets:
+                nxt = []
+                for cur, _ in states:
+                    nxt += self.assign(cur, t, v)
+                states = nxt
+            out += states
+        return out
 
     def assign(self, st, target, v):
         if isinstance(target, ast.Name):
@@ -937,6 +1025,7 @@ class Executor(Exec):
             name = mangle(self.defcls, target.attr) if self.defcls else target.attr
             obj = self.deref(st, base)
             if name in obj.fields:
+                self.detach_aliases(st, ("vfield", base.loc, name))
                 if isinstance(v, VSeq):
                     k_ = ("field", base.loc, name)
                     st.rebindcnt[k_] = st.rebindcnt.get(k_, 0) + 1
@@ -1026,6 +1115,8 @@ class Executor(Exec):
     def s_AugAssign(self, s, st):
         t = s.target
         if isinstance(t, ast.Name):
+            if t.id in st.aliasof:
+                raise Unsupported("augmented assignment to a local that denotes a list held in a field (in-place extension)")
             cur = self.eval(t, st)
             v = self.binop(st, s.op, cur, self.eval(s.value, st))
             return self.assign(st, t, v)
@@ -1042,6 +1133,20 @@ class Executor(Exec):
         raise Unsupported("augmented assignment target")
 
     # ---- loops ---------------------------------------------------------------------------------
+    def loop_spec(self, ordinal, s):
+        """the invariant the contract gives for the loop with this syntactic ordinal.  A loop the contract does not
+        mention (the code has a loop the contract was not written for) is outside the subset: executing it with an
+        empty invariant would report unprovable obligations for code that may be perfectly right."""
+        c = self.contract
+        if c is None:
+            raise Unsupported(f"loop at line {getattr(s, 'lineno', 0)} in code without a contract (no invariant)")
+        if ordinal not in c.loops:
+            if c.kind == "lemma" or getattr(self, "in_inline", 0):
+                raise Unsupported(f"loop at line {getattr(s, 'lineno', 0)}: no invariant available")
+            raise Unsupported(f"loop {ordinal} at line {getattr(s, 'lineno', 0)} of {c.key} has no invariant in the contract "
+                              f"(the contract annotates loops {sorted(c.loops)})")
+        return c.loops[ordinal]
+
     def s_For(self, s, st):
         if s.orelse:
             raise Unsupported("for-else")
@@ -1050,23 +1155,42 @@ class Executor(Exec):
         if ordinal is None:
             ordinal = self.loop_ord
             self.loop_ord += 1
-        spec = (self.contract.loops.get(ordinal) if self.contract else None) or {"invariant": []}
+        spec = self.loop_spec(ordinal, s)
         # the iterable: evaluated once; sequences reachable through a location are re-read (live)
         it_loc = None
         it_node = s.iter
         enum = False
-        if isinstance(it_node, ast.Call) and isinstance(it_node.func, ast.Name) and it_node.func.id == "enumerate":
+        if isinstance(it_node, ast.Call) and isinstance(it_node.func, ast.Name) and it_node.func.id == "enumerate" \
+                and len(it_node.args) == 1 and not it_node.keywords:
             enum = True
             it_node = it_node.args[0]
-        it0 = self.eval(it_node, st)
-        if isinstance(it0, VSeq):
-            it_loc = self.try_loc(it_node, st)
+        zip_nodes = None
+        if isinstance(it_node, ast.Call) and isinstance(it_node.func, ast.Name) and it_node.func.id == "zip" \
+                and it_node.args and not it_node.keywords:
+            zip_nodes = list(it_node.args)
+            parts0 = [self.eval(a, st) for a in zip_nodes]
+            if not all(isinstance(p, VSeq) for p in parts0):
+                raise Unsupported("zip of something that is not a sequence")
+            zip_locs = [self.try_loc(a, st) for a in zip_nodes]
+            it0 = None
+        else:
+            it0 = self.eval(it_node, st)
+            if isinstance(it0, VSeq):
+                it_loc = self.try_loc(it_node, st)
 
-        def current_iterable(state):
-            v = self.read(state, it_loc) if it_loc is not None else it0
+        def live(state, v0, loc):
+            v = self.read(state, loc) if loc is not None else v0
             if isinstance(v, VSeq):
                 v = VSeq(v.comps, v.ln, v.et, v.kind)
-                v._loc = it_loc
+                v._loc = loc
+            return v
+
+        def current_iterable(state):
+            if zip_nodes is not None:
+                from .values import VZip
+                z = VZip([live(state, p, l) for p, l in zip(parts0, zip_locs)], zip_locs)
+                return VEnum(z, None) if enum else z
+            v = live(state, it0, it_loc)
             return VEnum(v, it_loc) if enum else v
 
         # 1. dry run to find what the body may write
@@ -1124,8 +1248,11 @@ class Executor(Exec):
     def trip_count(self, st, it):
         if isinstance(it, VRange):
             return z3.simplify(z3.If(it.hi > it.lo, it.hi - it.lo, z3.IntVal(0)))
+        from .values import VZip
         if isinstance(it, VEnum):
-            return it.seq.ln
+            return self.zip_len(it.seq) if isinstance(it.seq, VZip) else it.seq.ln
+        if isinstance(it, VZip):
+            return self.zip_len(it)
         if isinstance(it, VSeq):
             return it.ln
         raise Unsupported(f"iteration over {it}")
